@@ -1,12 +1,12 @@
 CONSTANTS
-  Keys <- MCKeys
-  NfOf <- MCNfOf
+  Keys <- MCKeys2
+  NfOf <- MCNfOf2
   CloseTo <- MCCloseTo
   Vals = {"a", "e"}
   ErrVals = {"e"}
   Metas = {"m0", "m1"}
   Forms = {"py"}
-  DelPhantom = TRUE
+  DelPhantom = FALSE
   ExtClash = FALSE
   CloseTwice = FALSE
   NpHeader = FALSE
